@@ -15,6 +15,7 @@ RULE = ("k in 1..6 concurrent callers x answer arrival orders (all permutations 
         "preemption inside bromelia/bromelia.py, p in {0.05,0.2,0.5}); oracle: each caller's return value carries its own "
         "Hop-by-Hop and marker, no answer object reaches two callers, every caller whose answer was dispatched returns "
         "(deadlock detection / bounded progress on the virtual clock), the pending-answer registry is empty at the end; "
+        "plus one caller sending the same request object repeatedly (same Hop-by-Hop), optionally after an attempt on a worker that was down; "
         "distinct = (k, arrival order, release policy, schedule hash)")
 
 
@@ -179,6 +180,99 @@ def execute(acc, case):
     acc.sample({"case": case}, limit=3)
 
 
+def execute_resubmit(acc, case):
+    """One caller sends the *same* request object again and again (same Hop-by-Hop: a retransmission, or an application that
+    polls with one request), optionally after an attempt made while the connection worker was down (that attempt returns
+    without an answer and is not judged).  Every attempt made on a running worker is answered by the wire task; the caller must
+    be given that attempt's answer every time, and the registry must be empty at the end."""
+    import bromelia.bromelia as BB
+    from bromelia.base import DiameterMessage
+    rng = random.Random(case["seed"])
+    sched = vsched.Sched(seed=case["seed"], strategy=case["strategy"], p=case.get("p", 0.2), max_steps=400_000, wall_s=60)
+    wit = {"case": case}
+    h = lp = None
+    reps = case["reps"]
+    try:
+        h = appnode.AppHarness(sched, ["S6a"])
+        app, worker = h.app, h.workers["S6a"]
+        if case["strategy"] != "rr":
+            lp = vsched.LinePreemption(sched, files={BB.__file__}).__enter__()
+        lm = N.app_request(1, app=16777251, host=appnode.LOCAL_HOST, realm=appnode.LOCAL_REALM, dest_realm="remote.example")
+        lm.hbh = 0x6100 + case["seed"] % 7
+        req = DiameterMessage.load(R.encode(lm))[0]
+        got = []
+        down_result = []
+
+        def caller():
+            if case.get("down_first"):
+                worker.is_open.clear()
+                down_result.append(app.send_message(req))
+                worker.is_open.set()
+            for j in range(reps):
+                got.append(app.send_message(req))
+        answered = []
+
+        def wire():
+            seen = 0
+            while len(answered) < reps:
+                if not sched.block_until(lambda: len(h.sent()) > seen, 5.0, "wire-wait"):
+                    return
+                new = h.sent()[seen:]
+                seen += len(new)
+                for _ in new:
+                    j = len(answered) + 1
+                    am = N.app_answer(1000 + j, app=16777251, host="peer0.remote.example", realm="remote.example")
+                    am.hbh = lm.hbh
+                    answered.append(j)
+                    app.create_message_thread(DiameterMessage.load(R.encode(am))[0])
+        sched.spawn("caller1", caller)
+        wire_task = sched.spawn("wire", wire)
+        back = sched.run_until(lambda: len(got) == reps, 30.0, "resubmitting-caller-returns")
+        sched.run_until(lambda: wire_task.done and all(t.done for t in sched.tasks if t.name.startswith("recv_answer_")), 5.0, "dispatch-finishes")
+        acc.counters["executions"] += 1
+        acc.counters["resubmission_executions"] += 1
+        wit.update({"answered": answered, "returned": len(got), "down_attempt": [repr(x)[:60] for x in down_result], "tasks": sched.blocked_report(),
+                    "deaths": sched.deaths, "schedule": sched.schedule_hash(), "choices": sched.choices[:3000]})
+        for j, ans in enumerate(got, 1):
+            try:
+                la = R.decode(ans.dump())[0] if ans is not None else None
+            except BaseException:
+                la = None
+            if la is None or la.flags & 0x80 or la.hbh != lm.hbh or N.marker_of(la) != 1000 + j:
+                acc.violation("caller-got-foreign-answer:resubmitted-request" if ans is not None else "caller-got-none:resubmitted-request",
+                              "attempt %d of the same request (hop-by-hop %#x) returned %s" % (j, lm.hbh, "marker %r flags %#x" % (N.marker_of(la), la.flags) if la else repr(ans)[:80]), wit)
+                return
+        if not back:
+            if len(answered) > len(got):
+                acc.violation("caller-never-woken:resubmitted-request", "attempt %d of the same request is still blocked although its answer was dispatched: %s" % (
+                    len(got) + 1, sched.blocked_report()), wit)
+            else:
+                acc.violation("request-never-reached-the-wire:resubmitted-request", "attempt %d never reached the connection layer: %s" % (len(got) + 1, sched.blocked_report()), wit)
+            return
+        left = len(worker.pending_answers)
+        if left:
+            acc.violation("pending-registry-not-empty", "%d entries left in the pending-answer registry after %d attempts of one request" % (left, reps), wit)
+            return
+        acc.counters["callers_matched"] += reps
+    except vsched.DeadlockError as ex:
+        acc.violation("caller-never-woken:resubmitted-request", "deadlock after %d of %d attempts: %s" % (len(got), reps, ex), dict(wit, stacks=sched.stacks()))
+    except vsched.WallClock as ex:
+        acc.inconclusive.append("%s (case %r)" % (ex, case))
+    except vsched.StepBudget as ex:
+        acc.violation("spin", "%s; %s" % (ex, sched.blocked_report()), wit)
+    finally:
+        if lp is not None:
+            lp.__exit__()
+        if h is not None:
+            h.cleanup()
+        cov = sched.coverage()
+        sched.shutdown()
+    acc.evaluations += 1
+    acc.sigs.add(harness.sig_hash("resubmit/%s/%s/%s" % (reps, case.get("down_first"), cov["schedule"])))
+    acc.counters["steps"] += cov["steps"]
+    acc.counters["line_events"] += cov["line_events"]
+
+
 def run_batch(b):
     acc = harness.Acc()
     if b.get("real"):
@@ -187,7 +281,10 @@ def run_batch(b):
         realnet.run_cases(acc, b["real"])
         return acc
     for case in b["cases"]:
-        execute(acc, case)
+        if case.get("resubmit"):
+            execute_resubmit(acc, case)
+        else:
+            execute(acc, case)
     return acc
 
 
@@ -226,6 +323,9 @@ def main(tier, seed):
         if i % 3 == 1 and c["k"] > 1:
             c["cross_ids"] = True
     rng.shuffle(cases)
+    for i in range(60 if q else 4000):
+        cases.append({"resubmit": True, "seed": seed * 2003 + i, "reps": rng.choice([2, 3, 5]), "down_first": i % 3 == 0,
+                      "strategy": "rr" if i % 6 == 0 else "rw", "p": rng.choice([0.05, 0.2, 0.5])})
     nb = 16 if q else 64
     batches = [{"cases": cases[i::nb]} for i in range(nb)]
     for i in range(3 if q else 40):
@@ -236,7 +336,7 @@ def main(tier, seed):
     return harness.finish(PROP, tier, seed, "exploration", acc, RULE,
                           ["in-process workers (fake manager); the multi-process deployment of Bromelia.run() is out of reach",
                            "bounded progress: every caller returns within 30 virtual seconds after its answer was dispatched; a deadlock found by the scheduler is definitive"],
-                          t0, require_counters=("executions", "callers_matched", "steps", "real_loopback_ok", "task_parked_during_the_exchange", "two_connection_executions", "executions_with_overlapping_identifier_spaces"))
+                          t0, require_counters=("executions", "callers_matched", "steps", "real_loopback_ok", "task_parked_during_the_exchange", "two_connection_executions", "executions_with_overlapping_identifier_spaces", "resubmission_executions"))
 
 
 def replay(w):
